@@ -431,3 +431,144 @@ def _table_decode(s, name, info):
     _text_only(info, 'decode')
     vals = _pinned(s)
     return info.decode(bytes(vals))[0]
+
+
+# ------------------------------------------------------------------ incremental decoders
+
+def _utf8_prefix_ok(t):
+    """condition: the 1..3 bytes t are a proper prefix of some valid UTF-8 sequence"""
+    def zb(x):
+        return z3.BitVecVal(x, 8) if isinstance(x, int) else x
+    b0 = zb(t[0])
+    if len(t) == 1:
+        return z3.And(z3.UGE(b0, 0xc2), z3.ULE(b0, 0xf4))
+    b1 = zb(t[1])
+    lo = z3.If(b0 == 0xe0, z3.BitVecVal(0xa0, 8), z3.If(b0 == 0xf0, z3.BitVecVal(0x90, 8), z3.BitVecVal(0x80, 8)))
+    hi = z3.If(b0 == 0xed, z3.BitVecVal(0x9f, 8), z3.If(b0 == 0xf4, z3.BitVecVal(0x8f, 8), z3.BitVecVal(0xbf, 8)))
+    second = z3.And(z3.UGE(b1, lo), z3.ULE(b1, hi))
+    if len(t) == 2:
+        return z3.And(z3.UGE(b0, 0xe0), z3.ULE(b0, 0xf4), second)
+    b2 = zb(t[2])
+    return z3.And(z3.UGE(b0, 0xf0), z3.ULE(b0, 0xf4), second, z3.UGE(b2, 0x80), z3.ULE(b2, 0xbf))
+
+
+class SymIncrementalDecoder(object):
+    """codecs.getincrementaldecoder(name)(errors) for the bit-exact codecs: decode(input, final=False) returns the
+    text of the longest decodable prefix and keeps an incomplete trailing sequence (that may still become valid) for
+    the next call; final=True makes a leftover an error.  BOM-sniffing variants fix their byte order on the first
+    complete unit."""
+
+    def __init__(self, name, errors='strict'):
+        if errors != 'strict':
+            raise Unmodelled('incremental decoder errors=%r' % (errors,))
+        r = canon(name)
+        self.enc = r[0] if isinstance(r, tuple) else r
+        self.name = name
+        self.real = None
+        if self.enc is None:
+            import codecs as _c
+            self.real = _c.getincrementaldecoder(name if not isinstance(name, SSeq) else r[1].name)(errors)
+        self.buf = ()
+        self.started = False
+
+    def reset(self):
+        self.buf = ()
+        self.started = False
+        if self.real is not None:
+            self.real.reset()
+
+    def decode(self, data, final=False):
+        if self.real is not None:
+            if isinstance(data, SSeq):
+                raise Unmodelled('incremental decoder of a codec outside the bit-exact model on symbolic bytes')
+            return self.real.decode(data, final)
+        el = self.buf + (tuple(lift(data).el) if len(data) else ())
+        enc = self.enc
+        n = len(el)
+        if enc in ('ascii', 'latin-1'):
+            self.buf = ()
+            return decode(mk_seq(el, bytes), enc) if n else ''
+        if enc in ('utf-8', 'utf-8-sig'):
+            inner = 'utf-8'
+            if enc == 'utf-8-sig' and not self.started:
+                # the BOM is sniffed once 3 bytes are there (or the stream ends)
+                if n < 3:
+                    # could still be a BOM prefix?  (CPython does not look at `final` here)
+                    bom = (0xef, 0xbb, 0xbf)
+                    if _br(conj(el_eq(a, b) for a, b in zip(el, bom))):
+                        self.buf = el
+                        return ''
+                    self.started = True
+                else:
+                    self.started = True
+                    if n >= 3 and _br(conj([el_eq(el[0], 0xef), el_eq(el[1], 0xbb), el_eq(el[2], 0xbf)])):
+                        el = el[3:]
+                        n -= 3
+            for k in range(0, min(3, n) + 1):
+                if k and final:
+                    break
+                if k and not _br(_utf8_prefix_ok(el[n - k:])):
+                    continue
+                head = el[:n - k]
+                try:
+                    text = decode(mk_seq(head, bytes), inner) if head else ''
+                except UnicodeDecodeError:
+                    if k == 0:
+                        continue          # perhaps only the tail is incomplete
+                    raise
+                self.buf = tuple(el[n - k:]) if k else ()
+                return text
+            _err_dec(enc)
+        unit = 2 if enc.startswith('utf-16') else 4
+        inner = enc
+        nobom = False
+        if enc in ('utf-16', 'utf-32'):
+            if not self.started:
+                if n < unit and not final:
+                    self.buf = el
+                    return ''
+                self.started = True
+                boms = {2: ((0xff, 0xfe), (0xfe, 0xff)), 4: ((0xff, 0xfe, 0, 0), (0, 0, 0xfe, 0xff))}[unit]
+                self.order = 'le' if NATIVE_LE else 'be'
+                if n >= unit:
+                    if _br(conj(el_eq(a, b) for a, b in zip(el, boms[0]))):
+                        self.order = 'le'
+                        el = el[unit:]
+                    elif _br(conj(el_eq(a, b) for a, b in zip(el, boms[1]))):
+                        self.order = 'be'
+                        el = el[unit:]
+                    else:
+                        # unlike bytes.decode('utf-16'), the incremental decoder insists on a BOM (checked after the
+                        # first chunk has been decoded in native order, so decoding errors come first)
+                        nobom = True
+                    n = len(el)
+            inner = '%s-%s' % (enc, self.order)
+        keep = n % unit
+        if unit == 2 and n - keep >= 2:
+            # a trailing high surrogate waits for its partner
+            hi_b = el[n - keep - 1] if inner.endswith('le') else el[n - keep - 2]
+            if not final and _br(rng(hi_b, 0xd8, 0xdb)):
+                keep += 2
+        if final and keep:
+            _err_dec(enc)
+        head = el[:n - keep]
+        text = decode(mk_seq(head, bytes), inner) if head else ''
+        if nobom:
+            if len(head) >= unit:
+                raise UnicodeError('%s stream does not start with BOM' % enc.upper())
+            self.started = False          # nothing consumed yet: sniff again on the next call
+        self.buf = tuple(el[n - keep:]) if keep else ()
+        return text
+
+    def getstate(self):
+        raise Unmodelled('incremental decoder getstate')
+
+    setstate = getstate
+
+
+def incremental_decoder_factory(name):
+    canon(name)           # LookupError for unknown names, as codecs.getincrementaldecoder
+
+    def factory(errors='strict'):
+        return SymIncrementalDecoder(name, errors)
+    return factory
